@@ -1210,6 +1210,22 @@ func runR43(c *Ctx) {
 	sort.Slice(rets, func(i, j int) bool { return rets[i].Pos() < rets[j].Pos() })
 	main := rets[len(rets)-1]
 	key := fname(fn) + "|returned index"
+	// the other spelling: `return applied.withIndex(qf.index)` - a helper whose result carries the index it is handed
+	if call, isCall := main.Results[0].(*ssa.Call); isCall {
+		callee := call.Call.StaticCallee()
+		k := indexSetterParam(callee)
+		switch {
+		case callee == nil || k < 0 || k >= len(call.Call.Args):
+			c.undecided(key, p.instrPos(main), "the result is produced by a call that is not known to set the index from an argument")
+		default:
+			if fld, x := fieldOf(call.Call.Args[k]); fld != nil && fld.Name() == "index" && rootIsParam(x, recv) {
+				c.ok(key, p.instrPos(call), "index restored from the receiver by "+callee.Name())
+			} else {
+				c.bad(key, p.instrPos(call), fmt.Sprintf("the index handed to %s before returning is %s, not the receiver's own index", callee.Name(), describe(call.Call.Args[k])))
+			}
+		}
+		return
+	}
 	ld, ok := main.Results[0].(*ssa.UnOp)
 	if !ok {
 		c.undecided(key, p.instrPos(main), "the result is not a local frame variable")
@@ -1255,6 +1271,56 @@ func runR43(c *Ctx) {
 	} else {
 		c.bad(key, p.instrPos(last), fmt.Sprintf("the index assigned before returning is %s, not the receiver's own index", describe(last.Val)))
 	}
+}
+
+// indexSetterParam: fn returns a frame whose index field is, on every path, the value of one of its parameters
+// (withIndex): the position of that parameter, or -1.
+func indexSetterParam(fn *ssa.Function) int {
+	if fn == nil || fn.Blocks == nil || fn.Signature.Results().Len() != 1 || !isFrameType(fn.Signature.Results().At(0).Type()) {
+		return -1
+	}
+	found := -1
+	ok := true
+	eachInstr(fn, func(in ssa.Instruction) {
+		ret, isRet := in.(*ssa.Return)
+		if !isRet {
+			return
+		}
+		ld, isLd := ret.Results[0].(*ssa.UnOp)
+		if !isLd {
+			ok = false
+			return
+		}
+		al, isAl := ld.X.(*ssa.Alloc)
+		if !isAl {
+			ok = false
+			return
+		}
+		set := -1
+		for _, r := range *al.Referrers() {
+			fa, isFA := r.(*ssa.FieldAddr)
+			if !isFA || fieldNameAt(fa) != "index" {
+				continue
+			}
+			for _, r2 := range *fa.Referrers() {
+				if st, isSt := r2.(*ssa.Store); isSt && st.Addr == ssa.Value(fa) {
+					for i, prm := range fn.Params {
+						if st.Val == ssa.Value(prm) {
+							set = i
+						}
+					}
+				}
+			}
+		}
+		if set < 0 || found >= 0 && found != set {
+			ok = false
+		}
+		found = set
+	})
+	if !ok {
+		return -1
+	}
+	return found
 }
 
 func rootIsParam(x ssa.Value, prm *ssa.Parameter) bool {
@@ -1763,6 +1829,51 @@ func r46One(c *Ctx, fn *ssa.Function, lenient bool) bool {
 					}
 				}
 			}
+			// or the check lives in a helper that is handed the list: `if err := c.checkDeclared(list); err != nil { return err }`
+			// dominates the success return, and that helper branches on the strict flag and can fail
+			if !consulted {
+				for _, g := range dominatingGuards(blk) {
+					cond, val := unNot(g.Cond, g.Val)
+					cmp, ok := cond.(*ssa.BinOp)
+					if !ok || !(cmp.Op == token.EQL && val || cmp.Op == token.NEQ && !val) || !region(g.If.Block()) {
+						continue
+					}
+					for _, side := range [][2]ssa.Value{{cmp.X, cmp.Y}, {cmp.Y, cmp.X}} {
+						cst, isC := side[1].(*ssa.Const)
+						hc, isCall := side[0].(*ssa.Call)
+						if !isC || !cst.IsNil() || !isCall || !isErrorType(hc.Type()) {
+							continue
+						}
+						h := hc.Call.StaticCallee()
+						if h == nil || h.Pkg != fn.Pkg || h.Blocks == nil {
+							continue
+						}
+						getsList := false
+						for _, a := range hc.Call.Args {
+							if ex, ok := a.(*ssa.Extract); ok && ex.Tuple == ssa.Value(ta) && ex.Index == 0 {
+								getsList = true
+							}
+						}
+						readsStrict, canFail := false, false
+						eachInstr(h, func(i2 ssa.Instruction) {
+							switch t := i2.(type) {
+							case *ssa.If:
+								cc, _ := unNot(t.Cond, true)
+								if fld, _ := fieldOf(cc); fld != nil && fld.Name() == "strict" {
+									readsStrict = true
+								}
+							case *ssa.Return:
+								if !returnsNilError(t) {
+									canFail = true
+								}
+							}
+						})
+						if getsList && readsStrict && canFail {
+							consulted = true
+						}
+					}
+				}
+			}
 			if !consulted {
 				problem = p.instrPos(ret)
 			}
@@ -2104,11 +2215,54 @@ func runR34(c *Ctx) {
 		c.undecided("internal/ecolumn|minting function", "-", "no function appends to the values table")
 		return
 	}
-	guardsAt := func(fn *ssa.Function, blk *ssa.BasicBlock) (strictOK, cardOK bool, hi int64) {
+	var guardsAt func(fn *ssa.Function, blk *ssa.BasicBlock) (strictOK, cardOK bool, hi int64)
+	depthGuards := 0
+	guardsAt = func(fn *ssa.Function, blk *ssa.BasicBlock) (strictOK, cardOK bool, hi int64) {
 		hi = -1
 		for _, g := range dominatingGuards(blk) {
 			if fld, _ := fieldOf(g.Cond); fld != nil && fld.Name() == "strict" && !g.Val {
 				strictOK = true
+			}
+			// `if err := f.admits(..); err != nil { return err }`: past it, whatever dominates the helper's own
+			// `return nil` holds (the helper is a method of the same factory and returns nothing but the error)
+			cond, val := unNot(g.Cond, g.Val)
+			cmp, ok := cond.(*ssa.BinOp)
+			if !ok || !(cmp.Op == token.EQL && val || cmp.Op == token.NEQ && !val) || depthGuards > 1 {
+				continue
+			}
+			var call *ssa.Call
+			for _, side := range [][2]ssa.Value{{cmp.X, cmp.Y}, {cmp.Y, cmp.X}} {
+				if cst, isC := side[1].(*ssa.Const); isC && cst.IsNil() {
+					call, _ = side[0].(*ssa.Call)
+				}
+			}
+			if call == nil {
+				continue
+			}
+			h := call.Call.StaticCallee()
+			if h == nil || h.Pkg != fn.Pkg || h.Blocks == nil || h.Signature.Results().Len() != 1 || !isErrorType(h.Signature.Results().At(0).Type()) {
+				continue
+			}
+			allS, allC, n := true, true, 0
+			var hh int64 = -1
+			eachInstr(h, func(i2 ssa.Instruction) {
+				ret, isRet := i2.(*ssa.Return)
+				if !isRet || !returnsNilError(ret) {
+					return
+				}
+				n++
+				depthGuards++
+				s3, c3, h3 := guardsAt(h, ret.Block())
+				depthGuards--
+				allS = allS && s3
+				allC = allC && c3
+				hh = h3
+			})
+			if n > 0 && allS {
+				strictOK = true
+			}
+			if n > 0 && allC {
+				cardOK, hi = true, hh
 			}
 		}
 		eachInstr(fn, func(i2 ssa.Instruction) {
